@@ -52,6 +52,10 @@ def _round_multiple(f: float, of: float) -> float:
     return round(f / of) * of
 
 
+def _clamp01(value: float) -> float:
+    return max(min(value, 1.0), 0.0)
+
+
 def _explicit_lines_callback(subpath_start, curr_pos, cmd, args, *_):
     del subpath_start
     if cmd == "v":
@@ -390,7 +394,10 @@ class SVGShape:
             ("stroke", "fill_opacity"),
         ]:
             if getattr(target, fill_attr) == "none":
-                target.opacity *= getattr(target, opacity_attr)
+                # out of range values are clamped, each one before it is combined
+                target.opacity = _clamp01(target.opacity) * _clamp01(
+                    getattr(target, opacity_attr)
+                )
                 setattr(target, opacity_attr, default)
 
         return target
